@@ -239,7 +239,9 @@ func (l *Loader) updates() {
 			// notify that we are warmed, but one time only
 			warm.Do(func() { close(l.warm) })
 		case q := <-l.query:
-			go func() {
+			// hand the goroutine the state as it is now: the loop reassigns these variables on every
+			// config update, and a lookup must see one complete configuration, not a mixture
+			go func(providers []tq.SecretProvider, prefixDeny, prefixAllow *prefixFilter) {
 				// prefixFilter will log to prom counters and also act as a quick fail for prefixes that do not pass
 				// muster.  this pevents unnecessary load on scanning SecretProviders
 				if prefixDeny.deny(q.remote) {
@@ -256,7 +258,7 @@ func (l *Loader) updates() {
 				q.cb <- secretProvider{secret: secret, handler: handler, err: err}
 				close(q.cb)
 				buildGet.Inc()
-			}()
+			}(providers, prefixDeny, prefixAllow)
 		}
 	}
 }
